@@ -234,10 +234,13 @@ def checkAcc (d : DS) (s : St) (o : Obs) (t : Toks) (mi : Option (Bytes × Bool)
     else
       -- the model accessor *is* the statement "reports a value exactly when the raw RLP is the
       -- canonical encoding of such a value": a disagreement is a failure of that property
-      let owner := if k == "text" || k == "disp" then "C12"
+      let owner := if k == "text" || k == "disp" then "C12" else if k == "encs" then "C04"
         else if k == "pk" || k == "pkkey" || k == "nidpk" then "C10"
         else if k == "conv" || k == "dbg" then "C03" else "C14"
-      (s.diff s!"acc.{k}" model impl).prop owner s!"accessor_{k}_agrees_with_raw_content" s!"want={model} got={impl} pairs={showPairs r.content}"
+      let pred := if k == "encs" then "encoding_is_the_same_into_every_kind_of_sink"
+        else if k == "disp" then "display_is_the_text_form_whatever_the_sink_did_before"
+        else s!"accessor_{k}_agrees_with_raw_content"
+      (s.diff s!"acc.{k}" model impl).prop owner pred s!"want={model} got={impl} pairs={showPairs r.content}"
   let s := c s "id" (optHex r.idString)
   let s := c s "ip4" (optHex r.ip4)
   let s := c s "ip6" (optHex r.ip6)
@@ -302,6 +305,7 @@ def checkAcc (d : DS) (s : St) (o : Obs) (t : Toks) (mi : Option (Bytes × Bool)
   -- text forms
   let s := c s "text" (String.ofList ((r.toText).map fun b => Char.ofNat b.toNat))
   let s := c s "disp" "1"
+  let s := if thas t "encs" then c s "encs" "1" else s
   let s := c s "dbg" "ok"
   let s := match tget t "json" with
     | "1" => s.chk
@@ -465,6 +469,17 @@ def handleDec (d : DS) (s : St) (t : Toks) (o : Toks) (rec : Option Obs) (isInit
   let tag := tget t "tag"
   let expect := tget t "expect"
   let s := if resClass res == "panic" then s.prop "C03" "decode_no_panic" s!"buf={hex buf}" else s
+  -- several threads decoding the same bytes at once: all as the sequential decode
+  let s := if !(thas o "par") then s else
+    match (tget o "par").splitOn "/" with
+    | [ok, panics, n] =>
+      let s := if panics != "0" then s.prop "C03" "decode_no_panic" s!"concurrent buf={hex buf}" else s.chk
+      if resClass res == "ok" && ok != n then
+        s.prop "C02" "concurrent_decodes_agree_with_the_sequential_one" s!"accepted alone, concurrently {ok}/{n} buf={hex buf}"
+      else if resClass res == "err" && ok != "0" then
+        (s.prop "C02" "concurrent_decodes_agree_with_the_sequential_one" s!"rejected alone, concurrently accepted {ok}/{n} buf={hex buf}").prop "C01" "accepted_record_is_authentic" s!"concurrent buf={hex buf}"
+      else s.chk
+    | _ => s
   -- the model's verdict; when the implementation accepted, memoise the one verification
   let (S', s) := match rec with
     | some ob =>
